@@ -554,6 +554,201 @@ fn ser_hash_input(bound: &TraitBound) -> String {
     node("Strs", "", hasher.0.iter().map(|t| leaf("S", t)).collect())
 }
 
+// ---- whole impl blocks and groupings ----
+
+fn ser_generic_param(param: &syn::GenericParam) -> R {
+    Ok(match param {
+        syn::GenericParam::Lifetime(x) => {
+            no_attrs(&x.attrs)?;
+            node(
+                "GPLifetime",
+                &x.lifetime.ident.to_string(),
+                x.bounds.iter().map(ser_lifetime).collect::<Result<Vec<_>, _>>()?,
+            )
+        }
+        syn::GenericParam::Type(x) => {
+            no_attrs(&x.attrs)?;
+            if x.default.is_some() {
+                return Err("type parameter default".into());
+            }
+            node(
+                "GPType",
+                &x.ident.to_string(),
+                x.bounds.iter().map(ser_bound).collect::<Result<Vec<_>, _>>()?,
+            )
+        }
+        syn::GenericParam::Const(x) => {
+            no_attrs(&x.attrs)?;
+            node("GPConst", &x.ident.to_string(), vec![ser_type(&x.ty)?])
+        }
+    })
+}
+
+fn ser_generics(generics: &syn::Generics) -> Result<(String, String), String> {
+    let params = node(
+        "Generics",
+        "",
+        generics.params.iter().map(ser_generic_param).collect::<Result<Vec<_>, _>>()?,
+    );
+    let preds = match &generics.where_clause {
+        None => Vec::new(),
+        Some(clause) => clause
+            .predicates
+            .iter()
+            .map(|pred| -> R { match pred {
+                syn::WherePredicate::Type(x) => {
+                    if x.lifetimes.is_some() {
+                        return Err("for<..> in where clause".into());
+                    }
+                    let mut kids = vec![ser_type(&x.bounded_ty)?];
+                    for bound in &x.bounds {
+                        kids.push(ser_bound(bound)?);
+                    }
+                    Ok(node("PredType", "", kids))
+                }
+                syn::WherePredicate::Lifetime(x) => Ok(node(
+                    "PredLifetime",
+                    &x.lifetime.ident.to_string(),
+                    x.bounds.iter().map(ser_lifetime).collect::<Result<Vec<_>, _>>()?,
+                )),
+                _ => Err("where predicate kind".into()),
+            }})
+            .collect::<Result<Vec<_>, _>>()?,
+    };
+    Ok((params, node("Where", "", preds)))
+}
+
+fn ser_body<T: ToTokens>(res: R, fallback: &T) -> String {
+    res.unwrap_or_else(|_| leaf("Opaque", &toks(fallback)))
+}
+
+fn ser_impl_item(item: &syn::ImplItem) -> R {
+    Ok(match item {
+        syn::ImplItem::Const(x) => node(
+            "IConst",
+            &format!("{};{}", toks(&x.vis), x.ident),
+            vec![ser_type(&x.ty)?, ser_body(ser_expr(&x.expr), &x.expr)],
+        ),
+        syn::ImplItem::Type(x) => node(
+            "IType",
+            &format!("{};{}", toks(&x.vis), x.ident),
+            vec![ser_type(&x.ty)?],
+        ),
+        syn::ImplItem::Fn(x) => {
+            if !x.sig.generics.params.is_empty() || x.sig.generics.where_clause.is_some() {
+                return Err("generic method".into());
+            }
+            let inputs = ser_list(&x.sig.inputs, |arg| match arg {
+                syn::FnArg::Receiver(recv) => Ok(leaf("Recv", &toks(recv))),
+                syn::FnArg::Typed(arg) => Ok(node("Arg", &toks(&arg.pat), vec![ser_type(&arg.ty)?])),
+            })?;
+            node(
+                "IFn",
+                &format!("{};{}", toks(&x.vis), x.sig.ident),
+                vec![inputs, ser_ret(&x.sig.output)?, ser_body(ser_block(&x.block), &x.block)],
+            )
+        }
+        _ => return Err("impl item kind".into()),
+    })
+}
+
+pub fn ser_item_impl(item: &syn::ItemImpl) -> R {
+    no_attrs(&item.attrs)?;
+    let (params, preds) = ser_generics(&item.generics)?;
+    Ok(node(
+        "Impl",
+        if item.unsafety.is_some() { "unsafe" } else { "" },
+        vec![
+            params,
+            ser_opt(item.trait_.as_ref(), |(_, path, _)| ser_path(path))?,
+            ser_type(&item.self_ty)?,
+            preds,
+            node(
+                "Items",
+                "",
+                item.items.iter().map(ser_impl_item).collect::<Result<Vec<_>, _>>()?,
+            ),
+        ],
+    ))
+}
+
+/// The invocation's blocks, in input order: as written and after canonicalisation
+fn parse_blocks(src: &str) -> Result<(Option<syn::ItemTrait>, Vec<syn::ItemImpl>), String> {
+    struct Body(Option<syn::ItemTrait>, Vec<syn::ItemImpl>);
+    impl syn::parse::Parse for Body {
+        fn parse(input: syn::parse::ParseStream) -> syn::Result<Self> {
+            let trait_ = input.parse::<syn::ItemTrait>().ok();
+            let mut impls = Vec::new();
+            while !input.is_empty() {
+                impls.push(input.parse::<syn::ItemImpl>()?);
+            }
+            Ok(Body(trait_, impls))
+        }
+    }
+    let body = parse::<Body>(src)?;
+    Ok((body.0, body.1))
+}
+
+fn ser_grouping(groups: &ImplGroups, canonical: &[syn::ItemImpl]) -> R {
+    let mut out = Vec::new();
+    for (id, group) in &groups.impl_groups {
+        let members = group
+            .item_impls
+            .iter()
+            .map(|item| {
+                let idx = canonical
+                    .iter()
+                    .position(|c| c == item)
+                    .map(|i| i.to_string())
+                    .unwrap_or_else(|| "?".into());
+                leaf("Member", &idx)
+            })
+            .collect();
+        let keys = group
+            .assoc_bounds
+            .idents()
+            .map(|((bounded, trait_), ident)| {
+                Ok(node(
+                    "Key",
+                    &ident.to_string(),
+                    vec![ser_type(&bounded.0)?, ser_path(&trait_.0)?],
+                ))
+            })
+            .collect::<Result<Vec<_>, String>>()?;
+        let rows = group
+            .assoc_bounds
+            .payloads()
+            .map(|row| {
+                Ok(node(
+                    "Row",
+                    "",
+                    row.iter()
+                        .map(|payload| ser_opt(*payload, ser_type))
+                        .collect::<Result<Vec<_>, String>>()?,
+                ))
+            })
+            .collect::<Result<Vec<_>, String>>()?;
+        let unsized_ = group
+            .assoc_bounds
+            .unsized_params
+            .iter()
+            .map(|bounded| ser_type(&bounded.0))
+            .collect::<Result<Vec<_>, String>>()?;
+        out.push(node(
+            "Group",
+            "",
+            vec![
+                ser_group_id(id)?,
+                node("Members", "", members),
+                node("Keys", "", keys),
+                node("Rows", "", rows),
+                node("Unsized", "", unsized_),
+            ],
+        ));
+    }
+    Ok(node("Groups", "", out))
+}
+
 fn parse<T: syn::parse::Parse>(src: &str) -> Result<T, String> {
     syn::parse_str::<T>(src).map_err(|e| format!("parse error: {e}: {src}"))
 }
@@ -646,6 +841,54 @@ fn respond(line: &str) -> R {
         ["tokens_path", a] => {
             let a = parse::<syn::Path>(a)?;
             Ok(join(vec![ser_path(&a)?, ser_tokens(a.to_token_stream())]))
+        }
+        // canonicalisation of every block of an invocation (input order)
+        ["canon", src] => {
+            let (_, blocks) = parse_blocks(src)?;
+            let mut out = Vec::new();
+            for block in blocks {
+                let mut canonical = block.clone();
+                crate::param::resolve_non_predicate_params(&mut canonical);
+                out.push(node("Pair", "", vec![ser_item_impl(&block)?, ser_item_impl(&canonical)?]));
+            }
+            Ok(node("Blocks", "", out))
+        }
+        // the grouping the macro forms for an invocation, members as indices into the
+        // canonical blocks in input order; plus the generated items as token lists
+        ["groups", src] => {
+            let (_, blocks) = parse_blocks(src)?;
+            let canonical: Vec<_> = blocks
+                .into_iter()
+                .map(|mut block| {
+                    crate::param::resolve_non_predicate_params(&mut block);
+                    block
+                })
+                .collect();
+            let groups = parse::<ImplGroups>(src)?;
+            let blocks_ser = node(
+                "Blocks",
+                "",
+                canonical.iter().map(ser_item_impl).collect::<Result<Vec<_>, _>>()?,
+            );
+            let grouping = ser_grouping(&groups, &canonical)?;
+
+            let mut generated = Vec::new();
+            let main_trait = groups.item_trait_;
+            for (idx, group) in groups.impl_groups.into_values().enumerate() {
+                let helper = helper_trait::generate(main_trait.as_ref(), idx, &group);
+                let main = main_trait::generate(main_trait.as_ref(), idx, &group);
+                let impls = disjoint::generate(idx, group);
+                generated.push(node(
+                    "Generated",
+                    "",
+                    vec![
+                        ser_tokens(helper.to_token_stream()),
+                        node("HelperImpls", "", impls.iter().map(|i| ser_tokens(i.to_token_stream())).collect()),
+                        ser_tokens(main.to_token_stream()),
+                    ],
+                ));
+            }
+            Ok(join(vec![blocks_ser, grouping, node("Expansion", "", generated)]))
         }
         _ => Err(format!("unknown request: {line}")),
     }
